@@ -3,6 +3,7 @@
 from __future__ import annotations
 
 import ast
+import copy
 from dataclasses import dataclass, field
 from typing import Dict, List, Optional, Set, Tuple
 
@@ -50,6 +51,7 @@ class Pipeline:
         self.emit_line = 0
         self.events: List[Tuple[int, str, object]] = []
         self._bind: Dict[str, ast.Call] = {}
+        self._class_alts: Dict[str, List[str]] = {}
         self._counter = 0
         self._unresolved: List[Tuple[str, int, str]] = []
         self._walk(self.fn.body, [])
@@ -84,6 +86,10 @@ class Pipeline:
                 tgt = st.targets[0] if isinstance(st, ast.Assign) else st.target
                 val = st.value
                 if isinstance(tgt, ast.Name) and val is not None:
+                    chosen = [val.body, val.orelse] if isinstance(val, ast.IfExp) else [val]
+                    if all(isinstance(x, ast.Name) and x.id in self.py.classes for x in chosen):
+                        self._class_alts.setdefault(tgt.id, [])
+                        self._class_alts[tgt.id] += [x.id for x in chosen if x.id not in self._class_alts[tgt.id]]
                     for c in ast.walk(val):
                         if isinstance(c, ast.Call) and isinstance(c.func, ast.Name) and c.func.id in self.py.classes:
                             self._bind.setdefault(tgt.id + "#all", None)
@@ -92,6 +98,21 @@ class Pipeline:
                     elif isinstance(val, ast.IfExp):
                         self._bind[tgt.id] = val  # conditional choice of visitor
             self._scan(st, conds)
+
+    def prologue(self) -> Optional[ast.List]:
+        """The display of lines handed to the first `insert_lines_at_beginning` that is made under a condition on
+        `add_standard_prefix` (by role: whatever the local holding it is called)."""
+        for ins in sorted(self.insertions, key=lambda i: i.index):
+            if ins.method == "insert_lines_at_beginning" and any("add_standard_prefix" in c for c in ins.conds):
+                a = ins.arg
+                for _ in range(3):
+                    if isinstance(a, ast.Name):
+                        bs = [n.value for n in ast.walk(self.fn) if isinstance(n, (ast.Assign, ast.AnnAssign)) and n.value is not None and isinstance((n.targets[0] if isinstance(n, ast.Assign) else n.target), ast.Name) and (n.targets[0] if isinstance(n, ast.Assign) else n.target).id == a.id]
+                        if len(bs) != 1:
+                            return None
+                        a = bs[0]
+                return a if isinstance(a, ast.List) else None
+        return None
 
     def _scan(self, node, conds):
         for n in ast.walk(node):
@@ -105,7 +126,9 @@ class Pipeline:
                     ctors.append((a, None))
                 elif isinstance(a, ast.Name) and a.id in self._bind:
                     b = self._bind[a.id]
-                    if isinstance(b, ast.Call):
+                    if False:
+                        pass
+                    elif isinstance(b, ast.Call):
                         ctors.append((b, a.id))
                     elif isinstance(b, ast.IfExp):
                         for alt in (b.body, b.orelse):
@@ -116,7 +139,18 @@ class Pipeline:
                     continue
                 self.prog_var = self.prog_var or f.value.id
                 self._counter += 1
+                expanded = []
                 for c, var in ctors:
+                    # the class is chosen first, then called: `cls = A if opt else B; v = cls(args)` is `A(args) if opt else B(args)`
+                    alts = self._class_alts.get(c.func.id) if c.func.id not in self.py.classes else None
+                    if alts:
+                        for alt in alts:
+                            c2 = copy.deepcopy(c)
+                            c2.func = ast.copy_location(ast.Name(id=alt, ctx=ast.Load()), c.func)
+                            expanded.append((c2, var))
+                    else:
+                        expanded.append((c, var))
+                for c, var in expanded:
                     if c.func.id not in self.py.classes:
                         raise AnalysisError("M9", f"convert:{n.lineno}", f"visitor class {c.func.id} not found")
                     self.passes.append(Pass(c.func.id, n.lineno, var, c, list(conds), self._counter))
@@ -151,7 +185,7 @@ def pipeline(ctx: Ctx) -> Pipeline:
 def _direct_names(e: ast.AST) -> Set[str]:
     """Names loaded in e, not counting those inside nested calls (each call is its own sink)."""
     out: Set[str] = set()
-    stack = [e]
+    stack = [] if isinstance(e, ast.Call) else [e]
     while stack:
         n = stack.pop()
         if isinstance(n, ast.Name) and isinstance(n.ctx, ast.Load):
@@ -177,7 +211,16 @@ def option_slice(fn: ast.FunctionDef, option: str, classes: Optional[Set[str]] =
     def is_tainted(e: ast.AST) -> bool:
         return bool(names_loaded(e) & tainted)
 
+    def class_value(v: ast.AST) -> List[str]:
+        """`A` or `A if c else B` with A, B classes: a constructor chosen now and called later."""
+        alts = [v.body, v.orelse] if isinstance(v, ast.IfExp) else [v]
+        if all(isinstance(x, ast.Name) and (x.id in classes or (not classes and x.id[:1].isupper())) for x in alts):
+            return [x.id for x in alts]
+        return []
+
     def scalar_rhs(v: ast.AST) -> bool:
+        if class_value(v):
+            return False
         for c in ast.walk(v):
             if isinstance(c, ast.Call):
                 if isinstance(c.func, ast.Name) and (c.func.id in classes or c.func.id[:1].isupper()):
@@ -232,7 +275,11 @@ def option_slice(fn: ast.FunctionDef, option: str, classes: Optional[Set[str]] =
                 for n in ast.walk(st):
                     if isinstance(n, ast.Call):
                         control.add((_callee(n), n.lineno))
-                # (binding a local is not an effect of its own: what is computed for it - the calls above - is)
+                # (binding a local is not an effect of its own: what is computed for it - the calls above - is;
+                # binding it to a class is choosing the call made through it)
+                if isinstance(st, (ast.Assign, ast.AnnAssign)) and st.value is not None:
+                    for cname in class_value(st.value):
+                        control.add((cname, st.lineno))
                 if isinstance(st, ast.Raise):
                     control.add(("raise", st.lineno))
 
@@ -250,7 +297,9 @@ def option_slice(fn: ast.FunctionDef, option: str, classes: Optional[Set[str]] =
                 calls = [c for c in ast.walk(alt) if isinstance(c, ast.Call)]
                 for c in calls:
                     control.add((_callee(c), c.lineno))
-                if not calls:
+                if not calls and class_value(alt):
+                    control.add((alt.id, n.lineno))
+                elif not calls:
                     control.add((f"const:{unparse(alt)}", n.lineno))
     return {"data": sorted(data), "control": sorted(control), "tainted": sorted(tainted)}
 
